@@ -86,6 +86,22 @@ def dec_prio(p, res):
     lp = loops[0]
     cmps = [n for n in ast.walk(lp) if isinstance(n, ast.Compare) and 'priority' in src_of(n)]
     c = cmps[0] if cmps else lp.test
+    # the pending operator compared in the reduce loop must be read from the stack top inside the loop: a local that was read
+    # from the stack before the loop (or is not re-read after the pop) goes stale after the first reduction
+    popped = {src_of(n.func.value) for n in ast.walk(lp) if isinstance(n, ast.Call) and isinstance(n.func, ast.Attribute) and n.func.attr == 'pop'}
+    for cmp_ in cmps:
+        for side in [cmp_.left] + list(cmp_.comparators):
+            root = side
+            while isinstance(root, (ast.Attribute, ast.Subscript)):
+                root = root.value
+            if not isinstance(root, ast.Name) or root.id in popped:
+                continue
+            outside = [n for n in ot.body_nodes() if isinstance(n, ast.Assign) and src_of(n.targets[0]) == root.id
+                       and any(isinstance(x, ast.Subscript) and src_of(x.value) in popped for x in ast.walk(n.value))]
+            inside = [n for n in outside if any(n is x for x in ast.walk(lp))]
+            if outside and len(inside) < len(outside) or (inside and not all(n.lineno < cmp_.lineno for n in inside) and cmp_ in ast.walk(lp.test)):
+                res.bad(F('DEC-PRIO', ot, cmp_, src_of(cmp_), 'the pending operator must be re-read from the stack top on every iteration of the reduce loop: `%s` is read from the stack outside the loop and is stale after the first reduction' % root.id,
+                          failing_input='1 + 2 * 3 * 4'))
     # a prefix operator never reduces a pending operator
     guard = src_of(lp.test)
     skips_op1 = 'TokenType.Op1' in guard and ('!=' in guard or 'not' in guard)
